@@ -350,6 +350,65 @@ class CdsIncorporateCollection(Case):
         return [obs_loc(r[1])[:3], [o(x) for x in _items(r[3])]]
 
 
+class FeatureIncorporateCollection(Case):
+    """FeatureInterval.incorporate_variants with a haplotype of TWO variants WITH sequence on a chunk, one upstream
+    of the (single-block) feature and one downstream of it: the new feature is the block shifted by the FIRST variant's
+    length change - also when the two length changes cancel (the alternative sequence then has the length of the
+    reference, but the stretch between the variants has moved) - and its sequence is read from the alternative
+    haplotype."""
+    props = ("C13",)
+    summaries = (HOS,)
+    func = FEATURE + ".incorporate_variants"
+    shard_depth = 5
+    name = "FeatureInterval.incorporate_variants[1 block between the two variants of a haplotype with sequence]"
+    call = ("(lambda r: (r.chunk_relative_location, len(r.get_spliced_sequence()), r.strand, r.feature_id))"
+            "(f.incorporate_variants(col))")
+    ensures = {
+        "block-shifted-by-the-upstream-variant-only": lambda i, r: Iff(
+            covers_pos(r[0], i.q), And(i.s + i.d1 - i.cs <= i.q, i.q < i.e + i.d1 - i.cs)),
+        "sequence-length-kept": lambda i, r: r[1] == i.e - i.s,
+        "strand-and-id-kept": lambda i, r: And(_same_enum(r[2], i.strand), r[3] == "fid"),
+    }
+
+    def inputs(self, S):
+        starts, ends = block_lists(S, "f", 1)
+        s, e = starts[0], ends[0]
+        strand = strand_of(S, "strand")
+        cp, cs, ce = chunk_parent(S)
+        v1, vs1, ve1, alt1 = _variant_on(S, cp, cs, ce, "v1")
+        v2, vs2, ve2, alt2 = _variant_on(S, cp, cs, ce, "v2")
+        S.assume(And(cs <= vs1, ve1 <= s, e <= vs2, ve2 <= ce))
+        col = S.new(VCOL, [v1, v2], parent_or_seq_chunk_parent=cp)
+        f = S.new(FEATURE, starts, ends, strand, sequence_name="chr1", feature_id="fid", parent_or_seq_chunk_parent=cp)
+        d1 = slen(alt1) - (ve1 - vs1)
+        # domain of the known finding F-C13-1 excluded (the second variant is applied, in REFERENCE coordinates, to the
+        # location already shifted by the first): the shifted block still lies upstream of the second variant
+        S.assume(e + d1 <= vs2)
+        return NS(f=f, col=col, s=s, e=e, d1=d1, cs=cs, strand=strand, q=S.int("q"))
+
+    def samples(self, rng):
+        cs = rng.randint(0, 5)
+        vs1 = cs + rng.randint(0, 3)
+        ve1 = vs1 + rng.randint(1, 3)
+        s = ve1 + rng.randint(0, 3)
+        e = s + rng.randint(2, 6)
+        n1 = rng.randint(0, 4)
+        vs2 = max(e, e + n1 - (ve1 - vs1)) + rng.randint(0, 3)
+        ve2 = vs2 + rng.randint(1, 3)
+        ce = ve2 + rng.randint(0, 3)
+        # half of the samples: length changes that cancel
+        n2 = max(0, (ve2 - vs2) - (n1 - (ve1 - vs1))) if rng.random() < 0.5 else rng.randint(0, 4)
+        return dict(f_starts=[s], f_ends=[e], strand=rng.choice(["PLUS", "MINUS"]), chunk_start=cs, chunk_end=ce,
+                    chunk_seq="".join(rng.choice("ACGT") for _ in range(ce - cs)), v1_start=vs1, v1_end=ve1,
+                    v1_alt="".join(rng.choice("ACGT") for _ in range(n1)), v2_start=vs2, v2_end=ve2,
+                    v2_alt="".join(rng.choice("ACGT") for _ in range(n2)), q=rng.randint(0, 30))
+
+    def observe(self, r):
+        from .c02_single import obs_loc
+        from pyvc.check import default_observe as o
+        return [obs_loc(r[0])[:3], o(r[1])]
+
+
 class GeneIncorporate(Case):
     """GeneInterval.incorporate_variants: EVERY transcript of the new gene is the edited image of the corresponding
     source transcript - also a sibling the variant does not touch but that lies downstream of it (its coordinates
@@ -555,7 +614,7 @@ def _placed_cds(i):
 CASES = [FeatureIncorporate(1), FeatureIncorporate(2), CdsIncorporate(1),
          CdsIncorporate(2, place="downstream of"), CdsIncorporate(2, place="upstream of", tier="thorough"),
          CdsIncorporate(2, tier="thorough"), TranscriptIncorporate(1), TranscriptIncorporate(2, tier="thorough"),
-         CdsIncorporateCollection(), GeneIncorporate(), HaplotypeMapping()]
+         CdsIncorporateCollection(), FeatureIncorporateCollection(), GeneIncorporate(), HaplotypeMapping()]
 
 CANARIES = [
     dict(name="incorporate_variants: frames rebuilt from the first LISTED frame (F-C13-4)", props=("C13",),
